@@ -285,6 +285,7 @@ pub fn c35(args: &Args) -> Vec<Scenario> {
                 // API-only property on a single participant: its own SEDP loop-back traffic (one datagram per created
                 // entity, quadratic to process) is left queued until the executor goes idle
                 c.busy_pump_steps = 0;
+                c.max_datagrams = u64::MAX;
             }));
         }
     }
